@@ -27,9 +27,13 @@ def ids(sel):
     return [d for d in out if not sel or any(s in d for s in sel)]
 
 
-def collect():
+def collect(sel=()):
     os.makedirs(SEEDED, exist_ok=True)
     for d in sorted(glob.glob("/tmp/wt[0-9]*-*/seeded/*")):
+        if sel and not any(x in d for x in sel):
+            continue
+        if not all(os.path.exists(os.path.join(d, f)) for f in ("patch.diff", "demo.py", "meta.json")):
+            continue
         prop = d.split("/")[2].split("-")[1]
         name = os.path.basename(d)
         dst = os.path.join(SEEDED, name if name.startswith(prop + "-") else "%s-%s" % (prop, name))
@@ -116,7 +120,7 @@ def detect(sel, tier="quick", scratch=False):
 if __name__ == "__main__":
     cmd = sys.argv[1]
     if cmd == "collect":
-        collect()
+        collect(sys.argv[2:])
     elif cmd == "confirm":
         confirm(sys.argv[2:])
     elif cmd == "detect":
